@@ -304,6 +304,21 @@ func selectionKey(selection ast.Selection) (string, bool) {
 	return printed, err == nil
 }
 
+// sameSelections tells whether two selection sets print the same, selection by selection
+func sameSelections(a, b ast.SelectionSet) bool {
+	if len(a) != len(b) {
+		return false
+	}
+	for i := range a {
+		keyA, okA := selectionKey(a[i])
+		keyB, okB := selectionKey(b[i])
+		if !okA || !okB || keyA != keyB {
+			return false
+		}
+	}
+	return true
+}
+
 func sameInsertionPoint(a, b []string) bool {
 	if len(a) != len(b) {
 		return false
@@ -453,8 +468,11 @@ func (p *MinQueriesPlanner) extractSelection(ctx *PlanningContext, config *extra
 				ctx.Gateway.logger.Debug("found a thing with a selection. extracting to ", insertionPoint, ". Parent insertion", config.insertionPoint)
 				// add any possible selections provided by this fields selections
 				subSelection, err := p.extractSelection(ctx, &extractSelectionConfig{
-					addStep:        config.addStep,
-					fragments:      config.fragments,
+					addStep: config.addStep,
+					// the definitions this step was created with describe the parts of fragments spread at the
+					// step's own level. Beneath a field nothing has been split yet: a fragment spread there (the
+					// same fragment can be spread again) is the one of the document, all of it.
+					fragments:      nil,
 					step:           config.step,
 					locations:      config.locations,
 					parentLocation: config.parentLocation,
@@ -534,10 +552,17 @@ func (p *MinQueriesPlanner) extractSelection(ctx *PlanningContext, config *extra
 				Directives:    defn.Directives,
 				SelectionSet:  subSelection,
 			}
-			if existing := config.step.FragmentDefinitions.ForName(selection.Name); existing != nil {
-				*existing = *localDefn
-			} else {
+			if existing := config.step.FragmentDefinitions.ForName(selection.Name); existing == nil {
 				config.step.FragmentDefinitions = append(config.step.FragmentDefinitions, localDefn)
+			} else if !sameSelections(existing.SelectionSet, subSelection) {
+				// the step already carries another part of this fragment: it is spread at places that split
+				// differently between the services. One name cannot stand for both parts, so this place gets
+				// its part inline.
+				finalSelection[len(finalSelection)-1] = &ast.InlineFragment{
+					TypeCondition: defn.TypeCondition,
+					Directives:    selection.Directives,
+					SelectionSet:  subSelection,
+				}
 			}
 
 		case *ast.InlineFragment:
